@@ -13,7 +13,7 @@ Format description the re-parser implements
     snapshot k = records of blob0, overlaid by the records of blob k (later value wins; a record of
     size 0 means "empty array").
 """
-import json, os, struct, sys, traceback, signal
+import json, os, re, struct, sys, traceback, signal
 
 END = 9999
 HEADER_T = 1329743186
@@ -284,6 +284,152 @@ class PairTracker:
         return {"covered": len(self.seen), "total": len(self.total) - len(unc), "excluded": self.nexcluded,
                 "no_admissible_row": [list(m) for m in sorted(unc, key=str)[:30]],
                 "factors": {f: len(v) for f, v in self.factors.items()}, "missing": [list(m) for m in missing[:25]]}
+
+
+def probe_cadence_variant(rebound, wd):
+    """behavioural probe: does the interval heartbeat skip output times that have already passed (repaired source,
+    fixes/C06-cadence-skip-passed-output-times.diff) or advance by one interval only (pinned)?  -> True = repaired"""
+    os.makedirs(wd, exist_ok=True)
+    fn, out = os.path.join(wd, "cadprobe.bin"), os.path.join(wd, "cadprobe.json")
+
+    def child():
+        import warnings
+        warnings.filterwarnings("ignore")
+        sim = rebound.Simulation()
+        sim.add(m=1.0)
+        sim.add(m=1e-3, a=1.0)
+        sim.integrator = "leapfrog"
+        sim.dt = 0.01
+        sim.save_to_file(fn, interval=0.004)
+        sim.integrate(0.03, exact_finish_time=0)
+        nxt = sim.simulationarchive_next
+        json.dump(dict(ahead=bool(nxt > sim.t)), open(out, "w"))
+    if fork_run(child) != 0 or not os.path.exists(out):
+        return False
+    return json.load(open(out))["ahead"]
+
+
+# ------------------------------------------------------------------------------------------ public entry points
+ENTRY_CORE = ("reb_binary_diff", "reb_input_fields", "reb_simulation_save_to_stream", "reb_output_stream_write", "reb_simulation_output_free_stream")
+ENTRY_CORE_C07 = ("reb_read_simulationarchive_from_stream_with_messages", "reb_simulation_save_to_file", "reb_simulationarchive_free_pointers",
+                  "_reb_simulationarchive_automate_set_filename")
+
+
+def _c_bodies(repo):
+    import glob
+    bodies = {}
+    for f in sorted(glob.glob(os.path.join(repo, "src", "*.c"))):
+        src = open(f, errors="replace").read()
+        for m in re.finditer(r"^[A-Za-z_][\w \*]*?\b(\w+)\s*\([^;{]*\)\s*\{", src, flags=re.M):
+            end = src.find("\n}", m.end())
+            bodies.setdefault(m.group(1), (os.path.basename(f), src[m.end():end]))
+    return bodies
+
+
+def entry_points(repo, core=None):
+    """extracted from the source under test: DLLEXPORT functions of src/rebound.h from which the archive mechanism is
+    reachable = every function of simulationarchive.c, the delta encoder, the field reader and the stream writer
+    (`core` overrides this set), closed under 'is called by'.
+    -> (exported entry points {name: file}, non-exported functions on the way {name: file})"""
+    h = open(os.path.join(repo, "src", "rebound.h")).read()
+    decl = set(re.findall(r"DLLEXPORT[^;(]*?\b(reb_\w+)\s*\(", h))
+    bodies = _c_bodies(repo)
+    reach = set(core) if core else ({n for n, (f, _) in bodies.items() if f == "simulationarchive.c"} | set(ENTRY_CORE))
+    changed = True
+    while changed:
+        changed = False
+        for n, (f, b) in bodies.items():
+            if n not in reach and set(re.findall(r"\b(\w+)\s*\(", b)) & reach:
+                reach.add(n)
+                changed = True
+    return ({n: bodies[n][0] for n in sorted(reach) if n in decl and n in bodies},
+            {n: bodies[n][0] for n in sorted(reach) if n not in decl and n in bodies})
+
+
+def py_entry_points(repo, centry):
+    """methods of the Python classes that reach a C entry point: every method of class Simulation whose body names one,
+    and the public / container methods of class Simulationarchive -> {"Class.method": [C entry points named]}"""
+    import ast
+    out = {}
+    for fn, cls in (("simulation.py", "Simulation"), ("simulationarchive.py", "Simulationarchive")):
+        src = open(os.path.join(repo, "rebound", fn)).read()
+        for n in ast.parse(src).body:
+            if isinstance(n, ast.ClassDef) and n.name == cls:
+                for m in n.body:
+                    if isinstance(m, ast.FunctionDef):
+                        seg = ast.get_source_segment(src, m)
+                        hit = sorted(e for e in centry if re.search(r"\b%s\b" % e, seg))
+                        if hit or (cls == "Simulationarchive" and (not m.name.startswith("_") or m.name in ("__iter__", "__len__", "__getitem__"))):
+                            out["%s.%s" % (cls, m.name)] = hit
+    return out
+
+
+class _LibTrace(object):
+    """stands in for `clibrebound` inside the rebound modules: notes which entry points are looked up"""
+    def __init__(self, lib, fd, names):
+        object.__setattr__(self, "_lib", lib)
+        object.__setattr__(self, "_fd", fd)
+        object.__setattr__(self, "_names", set(names))
+        object.__setattr__(self, "_seen", set())
+
+    def __getattr__(self, name):
+        if name in self._names and name not in self._seen:
+            self._seen.add(name)
+            os.write(self._fd, ("c %s\n" % name).encode())
+        return getattr(self._lib, name)
+
+    def __setattr__(self, name, value):
+        setattr(self._lib, name, value)
+
+
+def install_entry_trace(rebound, logpath, centry, pyentry):
+    """record (into logpath, also from forked children) which C entry points the Python layer calls and which of the
+    extracted Python methods run"""
+    import functools
+    import sys
+    fd = os.open(logpath, os.O_WRONLY | os.O_CREAT | os.O_APPEND, 0o644)
+    for modname in ("rebound.simulation", "rebound.simulationarchive"):
+        mod = sys.modules[modname]
+        if not isinstance(mod.clibrebound, _LibTrace):
+            mod.clibrebound = _LibTrace(mod.clibrebound, fd, centry)
+    seen = set()
+    for qual in pyentry:
+        cls, meth = qual.split(".")
+        C = getattr(rebound, cls)
+        f = C.__dict__[meth]
+        raw = f.__func__ if isinstance(f, (staticmethod, classmethod)) else f
+
+        def mk(raw, qual):
+            @functools.wraps(raw)
+            def w(*a, **k):
+                if qual not in seen:
+                    seen.add(qual)
+                    os.write(fd, ("py %s\n" % qual).encode())
+                return raw(*a, **k)
+            return w
+        wrapped = mk(raw, qual)
+        setattr(C, meth, staticmethod(wrapped) if isinstance(f, staticmethod) or meth == "__new__" else wrapped)
+    return fd
+
+
+def read_entry_trace(logpath):
+    c_seen, py_seen = set(), set()
+    if os.path.exists(logpath):
+        for l in open(logpath):
+            p = l.split()
+            if len(p) == 2:
+                (c_seen if p[0] == "c" else py_seen).add(p[1])
+    return c_seen, py_seen
+
+
+def harness_calls(paths, centry):
+    """C entry points called by the harness programs of this run (their sources)"""
+    out = set()
+    for p in paths:
+        src = open(p).read()
+        src = re.sub(r"/\*.*?\*/", "", src, flags=re.S)
+        out |= {e for e in centry if re.search(r"\b%s\s*\(" % e, src)}
+    return out
 
 
 # ------------------------------------------------------------------------------------------ C06 factors
